@@ -164,7 +164,10 @@ def process_urlencoded(entity):
                         params[key].append(value)
                     else:
                         params[key] = value
-        except UnicodeDecodeError:
+        except (LookupError, ValueError):
+            # Undecodable bytes (UnicodeDecodeError), or a charset parameter
+            # that names no usable text codec (LookupError, UnicodeError,
+            # ValueError for a NUL in the name): try the next one.
             pass
         else:
             entity.charset = charset
@@ -543,7 +546,8 @@ class Entity(object):
         for charset in self.attempt_charsets:
             try:
                 value = value.decode(charset)
-            except UnicodeDecodeError:
+            except (LookupError, ValueError):
+                # See process_urlencoded.
                 pass
             else:
                 self.charset = charset
